@@ -3,13 +3,15 @@
     [parse_dialect] is the Impl model of dialects._parse_dialect_string (tied to /repo by the per-run
     correspondence), [graph_base_dialect]/[fragment_node_dialect] are the tables GENERATED from
     dialects.py, [doc_coarse]/[doc_atomic] the documented tables; every theorem is for every float()
-    oracle [fo].  The propagation clauses (coarse node / every copy of a fragment atom) are evaluated at
-    run time on the implementation's graphs (Dialect/DialectCheck.v), not proved here. *)
+    oracle [fo].  The propagation clauses are theorems over the OTHER components' models (reader, strip,
+    resolver, hydrogens), stated in the second half of this file; the run-time evaluation on the
+    implementation's graphs (Dialect/DialectCheck.v) stays as it was. *)
 From Coq Require Import String.
 From Coq Require Import List Ascii ZArith Bool Permutation.
-From CGV Require Import Base.PyBase Base.PyVal Gen.DialectGen Dialect.DialectImpl Dialect.DialectDefs
-     Dialect.DialectProofs Dialect.DialectCheck.
+From CGV Require Import Base.PyBase Base.PyVal Base.NxGraph Gen.DialectGen Dialect.DialectImpl Dialect.DialectDefs
+     Dialect.DialectProofs Dialect.DialectCheck Dialect.CoarsePartial.
 Import ListNotations.
+Close Scope Z_scope.
 
 (** the tables in the source say what the documentation says, and have the shape assumed below *)
 Theorem C14_generated_tables_documented :
@@ -94,6 +96,25 @@ Theorem C14_coarse_fragment_refuted :
               aget (S "charge") a = Some (VFlt (S "0.0")) /\ aget (S "q") a = Some (VStr (S "1")).
 Proof. eexists. eexists. repeat split; vm_compute; reflexivity. Qed.
 
+(** C14_partial for the class: a coarse node inside a fragment definition written OUTSIDE the class (only the
+    name positional, keys other than q / x) gets what the documented coarse dialect promises: charge 0.0,
+    weight = the written number or 1.0, free keys verbatim *)
+Theorem C14_partial_coarse_fragment : forall fo name kws xw,
+  clean name = true -> name <> [] ->
+  Forall (fun kv => clean_entry kv = true) kws -> NoDup (keys kws) ->
+  (forall k, In k (keys kws) -> ~ In k outside_names) ->
+  w_value fo kws = Some xw ->
+  exists a, coarse_fragment_node fo (render [name] kws) = Ok a /\
+    aget (S "charge") a = Some (VFlt (S "0.0")) /\
+    aget (S "weight") a = Some xw /\
+    forall k v, In (k, v) kws -> k <> S "w" -> aget k a = Some (VStr v).
+Proof. exact coarse_fragment_partial. Qed.
+Theorem C14_partial_is_outside_class : forall name kws assign free,
+  (forall k, In k (keys kws) -> ~ In k outside_names) ->
+  coarse_fragment_dialect_class {| a_assign := assign; a_free := free;
+                                   a_ents := EPos name :: map (fun kv => EKw (fst kv) (snd kv)) kws |} = false.
+Proof. exact outside_class. Qed.
+
 (** non-vacuity of the implications above *)
 Example C14_nonvacuous :
   parse_dialect fo_demo graph_base_dialect (S "A;+1;1e-1;mass=72") =
@@ -112,3 +133,96 @@ Print Assumptions C14_defaults_generated.
 Print Assumptions C14_bind_numeric.
 Print Assumptions C14_bind_free.
 Print Assumptions C14_coarse_fragment_refuted.
+Print Assumptions C14_partial_coarse_fragment.
+
+(** ======================= propagation, over the other components' models ======================= *)
+From CGV Require Import Reader.ReaderImpl Reader.Grammar Reader.Lin Reader.ReaderCheck
+     Resolve.GraphOps Resolve.Pipeline Resolve.CopyProofs
+     Frag.NDict Frag.StripImpl Frag.FragText Hydro.Hydrogens Hydro.Fragments
+     Dialect.MachineAnnot Dialect.BaseAnnot Dialect.FragAnnot Dialect.CopyAnnot.
+Open Scope Z_scope.
+
+(** ---- base graph ---- *)
+(** the reader model ([ReaderImpl.read_cgsmiles], compared with the implementation on every run) on every
+    string of the documented grammar outside the reader's own defect classes: node i carries EXACTLY
+    parse_graph_base_node of the i-th node text in order of appearance (one per copy of a multiplied node) -
+    at every node position, inside branches, after ring bonds *)
+Theorem C14_base_annotation_stays : forall fo braces a g,
+  Grammar.wf fo a = true -> has_branch_mult a = false -> class_C04 braces a = 0%nat ->
+  read_cgsmiles fo (print braces a) = Ok g -> annotated_as fo g (node_texts (toks (expand_branches a))).
+Proof. exact base_annotation_stays. Qed.
+Theorem C14_base_annotation_flat : forall fo l g, lins_ok fo l = true ->
+  read_cgsmiles fo ("{"%char :: lins_str l ++ ["}"%char]) = Ok g -> annotated_as fo g (node_texts (lins_toks l)).
+Proof. exact base_annotation_flat. Qed.
+(** the underlying fact on the token machine (any token list, hence also the longhand of branch multipliers) *)
+Theorem C14_machine_annotations : forall fo ts x, m_run fo ts m_init = Ok x ->
+  node_keys (m_g x) = zseq (length (node_texts ts)) /\
+  forall i nm, nth_error (node_texts ts) i = Some nm ->
+    exists a, parse_graph_base_node fo nm = Ok a /\ node_attrs (m_g x) (Z.of_nat i) = Ok a.
+Proof. exact machine_annotations. Qed.
+(** ... and on the coarse graph resolve() returns (model [Pipeline.resolve_step]): same key, same dictionary *)
+Theorem C14_base_annotation_on_coarse_graph : forall fo braces a g legacy aa fd tr so i nm,
+  Grammar.wf fo a = true -> has_branch_mult a = false -> class_C04 braces a = 0%nat ->
+  read_cgsmiles fo (print braces a) = Ok g ->
+  resolve_step legacy aa fd g tr = Ok so ->
+  nth_error (node_texts (toks (expand_branches a))) i = Some nm ->
+  exists at_, parse_graph_base_node fo nm = Ok at_ /\
+              (aget (S "atomname") at_ = None -> node_attrs (so_meta so) (Z.of_nat i) = Ok at_).
+Proof. exact base_annotation_on_coarse_graph. Qed.
+Theorem C14_coarse_graph_keeps_annotation : forall legacy aa fd prev tr so k a,
+  resolve_step legacy aa fd prev tr = Ok so -> NoDup (node_keys prev) ->
+  node_attrs prev k = Ok a -> aget (S "atomname") a = None -> node_attrs (so_meta so) k = Ok a.
+Proof. exact coarse_graph_keeps_annotation. Qed.
+
+(** ---- fragment atoms ---- *)
+(** strip_bonding_descriptors (model StripImpl, through the strip component's [strip_correct]): the
+    annotation of the bracket atom at ANY position is found under that atom's index, as the dictionary
+    fragment_node_parser returns for its text *)
+Theorem C14_strip_annotation_reaches_attributes : forall fo toks dc pre body annot post clean desc ez ann a,
+  FragText.wf toks dc = true -> excluded toks dc = false ->
+  decorate toks dc = pre ++ ITok (TBracket body annot) :: post ->
+  strip_bonding_descriptors fo (FragText.render (decorate toks dc)) = Ok (clean, desc, ez, ann) ->
+  fragment_node_parser fo (annot_text annot) = Ok a ->
+  exists a', nd_get (atoms_of pre) ann = Some a' /\ attrs_equiv a' a.
+Proof. exact strip_annotation_reaches_attributes. Qed.
+(** `nx.set_node_attributes(mol_graph, attributes)` (model Hydro/Fragments.set_attr_dicts): every parsed
+    (key, value) is on template atom i afterwards *)
+Theorem C14_template_carries_annotation : forall d g i a n key v,
+  NoDup (map fst d) -> In (i, a) d -> gfind i g = Some n -> NoDup (map fst a) -> In (key, v) a ->
+  exists n', gfind i (set_attr_dicts g d) = Some n' /\ aget key (na n') = Some v.
+Proof. exact template_carries_annotation. Qed.
+(** resolve_disconnected_molecule (model GraphOps.resolve_disconnected): the coarse node [mn] stands at ANY
+    position of the coarse graph - so this is every coarse node that uses the fragment, every reuse count -
+    and at the end of the loop each template atom has its copy for that coarse node, recording the coarse key
+    and carrying the template's value under every key but fragid / mapping / ez_isomer_atoms *)
+Theorem C14_fragment_annotation_on_every_copy : forall fd pre mn post fv name frag mol fgs,
+  wf_dict fd -> aget (S "fragname") (na mn) = Some fv -> lookup_fragment fd fv = Some (name, frag) ->
+  resolve_disconnected fd (pre ++ mn :: post) = Ok (mol, fgs) ->
+  exists off, forall n, In n frag -> exists a2, node_attrs mol (copy_key off frag (nk n)) = Ok a2 /\
+    aget (S "fragid") a2 = Some (VList [VInt (nk mn)]) /\
+    forall key, kept_key key -> aget key a2 = aget key (na n).
+Proof. exact every_copy_carries_template. Qed.
+(** rebuild_h_atoms' inheritance loop (model Hydrogens.inherit_step): no key an atom carries is overwritten *)
+Theorem C14_hydrogens_do_not_overwrite : forall copy_attrs g k n anchor rest m,
+  gfind k g = Some n -> wants_inherit (na n) = true ->
+  neighbors g k = anchor :: rest -> anchor <> k -> gfind anchor g = Some m ->
+  exists g', inherit_step copy_attrs g k = Ok g' /\
+    (forall j, j <> k -> gfind j g' = gfind j g) /\
+    exists n', gfind k g' = Some n' /\ forall attr v, aget attr (na n) = Some v -> aget attr (na n') = Some v.
+Proof. exact inheritance_does_not_overwrite. Qed.
+
+(** non-vacuity *)
+Example C14_base_annotation_nonvacuous :
+  let fo := fo_of_table [(S "1", Some (S "1.0")); (S "2", Some (S "2.0"))] in
+  let a := [Item (S "A;q=1") [] None None [Branch [Item (S "B;w=2") [] (Some [2%nat]) None []] None None]; Item (S "C") [] None None []] in
+  Grammar.wf fo a = true /\ has_branch_mult a = false /\ class_C04 true a = 0%nat /\
+  node_texts (toks (expand_branches a)) = [S "A;q=1"; S "B;w=2"; S "B;w=2"; S "C"] /\
+  exists g, read_cgsmiles fo (print true a) = Ok g.
+Proof. exact base_annotation_example. Qed.
+
+Print Assumptions C14_base_annotation_stays.
+Print Assumptions C14_base_annotation_on_coarse_graph.
+Print Assumptions C14_strip_annotation_reaches_attributes.
+Print Assumptions C14_template_carries_annotation.
+Print Assumptions C14_fragment_annotation_on_every_copy.
+Print Assumptions C14_hydrogens_do_not_overwrite.
